@@ -51,6 +51,8 @@ def run(prop, tier, seed, ctx):
             what = "unit_test with case outcomes %s: returned %s (expected %s / %d passed)" % (c["cases"], m["observed"], m["expected"], c["passed"])
         else:
             key = "C07|%s|%s|%s|holds=%s" % (c["a"], klass(c["l"]), klass(c["r"]) if c["a"] not in ("is_none", "is_not_none", "true", "false") else "-", m["holds"])
+            if m["observed"].get("keyword"):
+                key = "C07|keyword|%s|holds=%s" % (m["observed"]["keyword"], m["holds"])
             if c["a"] in ("is_instance", "not_is_instance") and c["r"] in ("t:int", "t:float") and klass(c["l"]) in ("int", "float", "bool"):
                 key = "C07|is_instance|int-float-interchangeable"
             what = "assert_%s(%s, %s) with wrapping %s: %s but the relation %s (expected %s); status=%s" % (
